@@ -285,11 +285,14 @@ impl RtpsWriterProxy {
                 self.acknack_count(),
             );
 
-            let rtps_message = if let Some(missing_change_fragments_seq_num) = self
+            let missing_change_fragments_seq_num = self
                 .missing_changes()
                 .take(256)
-                .find(|s| self.frag_buffer.iter().any(|x| &x.writer_sn() == s))
+                .find(|s| self.frag_buffer.iter().any(|x| &x.writer_sn() == s));
+            let rtps_message = if let Some(missing_change_fragments_seq_num) =
+                missing_change_fragments_seq_num
             {
+                self.nack_frag_count = self.nack_frag_count.wrapping_add(1);
                 let frag = self
                     .frag_buffer
                     .iter()
@@ -309,7 +312,11 @@ impl RtpsWriterProxy {
                 let base = *missing_fragments_iter
                     .peek()
                     .expect("At least a fragment must be missing");
-                let fragment_number_state = FragmentNumberSet::new(base, missing_fragments_iter);
+                // A FragmentNumberSet spans at most 256 numbers; the rest is requested in the next round
+                let fragment_number_state = FragmentNumberSet::new(
+                    base,
+                    missing_fragments_iter.take_while(|frag_num| frag_num - base < 256),
+                );
                 let nack_frag_submessage = NackFragSubmessage::new(
                     reader_guid.entity_id(),
                     self.remote_writer_guid().entity_id(),
